@@ -1,10 +1,11 @@
 //! Family binary: Kademlia (C37–C44).
 mod c37;
 mod c38;
+mod c39;
 mod c40;
 mod c41;
 mod kx;
 
 fn main() {
-    mc::main_dispatch(&[("C37", c37::run, c37::META), ("C38", c38::run, c38::META), ("C40", c40::run, c40::META), ("C41", c41::run, c41::META)]);
+    mc::main_dispatch(&[("C37", c37::run, c37::META), ("C38", c38::run, c38::META), ("C39", c39::run, c39::META), ("C40", c40::run, c40::META), ("C41", c41::run, c41::META)]);
 }
